@@ -2,7 +2,8 @@
 import re, json, random
 import t2t, corr, gen, shellrun, impl
 
-OBLIGATIONS = ['Yalafi.C18_include_nodup', 'Yalafi.C18_include_closed', 'Yalafi.C18_include_reachable', 'Yalafi.C18_addTex']
+OBLIGATIONS = ['Yalafi.C18_include_nodup', 'Yalafi.C18_include_closed', 'Yalafi.C18_include_reachable', 'Yalafi.C18_addTex',
+               'Yalafi.C18_extract_e2e', 'Yalafi.C18_extract_exact', 'Yalafi.C18_extract_listed', 'Yalafi.C18_extract_decls', 'Yalafi.C18_extract_footnote_current', 'Yalafi.C18_extract_foo_current', 'Yalafi.C18_extract_mixed_current', 'Yalafi.C18_extract_foo_example_current', 'Yalafi.C18_extract_footnote_example_current']
 
 # ---- extraction ---------------------------------------------------------------
 
